@@ -302,6 +302,46 @@ def _check_klatt(case):
     return n, "ok", (src[:3], tuple((a[:2], fs) for a, fs in mods)), viols
 
 
+# ------------------------------------------------------------------ one live KlattGrid: every sequence of saves and modifications
+SEQ_ADDRS = (("pitch",), ("oral_formants", "formants", "formants [1]"), ("oral_formants", "formants"), ("oral_formants", "bandwidths", "bandwidths [2]"))
+SEQ_FUNCS = (FUNCS[0], FUNCS[8])
+SEQ_OPS = tuple([("save",)] + [("mod", a, f) for a in SEQ_ADDRS for f in SEQ_FUNCS])
+
+
+def _check_sequence(case):
+    """case: a tuple of indices into SEQ_OPS, applied to ONE live KlattGrid; after every save the file is reopened and compared with the model"""
+    fn, spec = _source(("syn", 2, 2, 0, " ", True))
+    out = os.path.join(scratch_dir(), "c19-seq.KlattGrid")
+    kg = klattgrid.openKlattgrid(fn)
+    exp = [(k, lo, hi, list(E)) for k, lo, hi, E in dump(kg)]
+    n = 0
+    names = [SEQ_OPS[i] for i in case] + [("save",)]      # every sequence ends with a save
+    for step, op in enumerate(names):
+        n += 1
+        if op[0] == "save":
+            st, r, _ = call(kg.save, out)
+            if st == "exc":
+                return n, "!", None, [Viol("save-raised:" + type(r).__name__, f"sequence {names[:step + 1]} on one live KlattGrid: {r!r}")]
+            st, kg2, _ = call(klattgrid.openKlattgrid, out)
+            m = f"reopening raised {kg2!r}" if st == "exc" else diff(exp, dump(kg2), "the file written by the last save")
+            if m:
+                return n, "!", None, [Viol("sequence-save-is-stale", f"sequence {names[:step + 1]} on one live KlattGrid: {m}")]
+        else:
+            _, addr, fs = op
+            keys = addressed_keys(addr, exp)
+            obj, meth = address(kg, addr)
+            counter = [0]
+            f = mkfunc(fs, counter)
+            st, r, _ = call(getattr(obj, meth), addr[1], f) if meth == "modifySubtiers" else call(getattr(obj, meth), f)
+            if st == "exc":
+                return n, "!", None, [Viol("modify-raised:" + type(r).__name__, f"sequence {names[:step + 1]}: {r!r}")]
+            exp = [(k, lo, hi, [(a, pure(fs, b)) for a, b in E] if k in keys else E) for k, lo, hi, E in exp]
+            m = diff(exp, dump(kg), "in memory")
+            if m:
+                return n, "!", None, [Viol("sequence-modify-result", f"sequence {names[:step + 1]} on one live KlattGrid: {m}")]
+    return n, "ok", case, []
+
+
 # ------------------------------------------------------------------ KlattGrids built through the API
 def _check_built(case):
     """a KlattGrid assembled with addTier (sub-tiers placed by tierIndex, in every insertion order): save -> open keeps the hierarchy"""
@@ -497,6 +537,12 @@ def parts(tier):
                        "modifications (every addressed tier x 9 functions; all pairs on distinct tiers), save, reopen, compare every span, "
                        "time and value digit for digit, call counts, untouched tiers; non-trivial = distinct (source, modification list)",
                   bounds={"functions": len(FUNCS)}, chunk=4),
+        InputPart("klattgrid-live-sequences", lambda: (seq for k in range(1, (4 if quick else 5) + 1) for seq in itertools.product(range(len(SEQ_OPS)), repeat=k)),
+                  _check_sequence,
+                  rule="EVERY sequence of up to %d operations from {save, modify one of %d addressed tiers (a top-level tier, two sub-tiers, a whole "
+                       "intermediate tier holding one of them) with one of %d functions} on ONE live KlattGrid, followed by a save: the file written by every "
+                       "save, reopened, holds exactly the modelled values (modifications of the same tier twice in a row, with and without a save between)"
+                       % (4 if quick else 5, len(SEQ_ADDRS), len(SEQ_FUNCS)), bounds={"depth": 4 if quick else 5, "alphabet": len(SEQ_OPS)}, chunk=16),
         InputPart("klattgrid-built-through-api",
                   lambda: ((nform, perm, vi, npts) for nform in (1, 2, 3) for perm in itertools.permutations(range(1, nform + 1))
                            for vi in range(0, len(VALS), 3) for npts in (0, 1, 2)), _check_built,
